@@ -112,6 +112,20 @@ fn undefined() -> Box<dyn error::Error> {
     "The operation is not defined for these operands".into()
 }
 
+/// `base` to the power `exponent`. rust_decimal forms a negative whole power as 1 / base^|n|: for a base below 1 the
+/// intermediate has lost its digits before the reciprocal is taken (0.5^92 is 0.0000000000000000000000000002, so
+/// 0.5^-92 came out as 5e27 instead of 2^92). Such a power is taken of the reciprocal of the base instead.
+fn power(base: Decimal, exponent: Decimal) -> Option<Decimal> {
+    if exponent.is_sign_negative()
+        && exponent.fract().is_zero()
+        && !base.is_zero()
+        && base.abs() < Decimal::ONE
+    {
+        return Decimal::ONE.checked_div(base)?.checked_powd(-exponent);
+    }
+    base.checked_powd(exponent)
+}
+
 /// Principal branch of the Lambert W function: Halley's method from an asymptotic
 /// starting point, iterated to convergence (at most 50 steps).
 fn lambert_w0(x: f64) -> f64 {
@@ -345,9 +359,7 @@ pub fn eval(expr: Node) -> Result<Decimal, Box<dyn error::Error>> {
         Exp2(sub_expr) => Decimal::new(2, 0)
             .checked_powd(eval(*sub_expr)?)
             .ok_or_else(out_of_range),
-        Pow(expr1, expr2) => eval(*expr1)?
-            .checked_powd(eval(*expr2)?)
-            .ok_or_else(out_of_range),
+        Pow(expr1, expr2) => power(eval(*expr1)?, eval(*expr2)?).ok_or_else(out_of_range),
         Log(expr1, expr2) => {
             let numerator = eval(*expr1)?.checked_ln().ok_or_else(undefined)?;
             let denominator = eval(*expr2)?.checked_ln().ok_or_else(undefined)?;
@@ -389,9 +401,7 @@ pub fn eval(expr: Node) -> Result<Decimal, Box<dyn error::Error>> {
             let exponent = Decimal::new(1, 0)
                 .checked_div(eval(*n_th_expr)?)
                 .ok_or_else(undefined)?;
-            eval(*x_expr)?
-                .checked_powd(exponent)
-                .ok_or_else(out_of_range)
+            power(eval(*x_expr)?, exponent).ok_or_else(out_of_range)
         }
         Min(args) => eval_min(args),
         Max(args) => eval_max(args),
